@@ -97,6 +97,22 @@ fn run_history(h: &[(Kind, usize, usize, usize)]) -> Result<(), (usize, String, 
             Err((msg, class)) => return Err((i, msg, class)),
         }
     }
+    // the answer states: reification (the last goal of every query) replaces the store through State::with_cstore;
+    // the balance must hold on what the caller of the query gets to see
+    let q: T = LTerm::from_vec(vars.clone());
+    let goal = proto_vulcan::state::reify::<U, E>(q);
+    let mut solver: proto_vulcan::solver::Solver<U, E> = proto_vulcan::solver::Solver::new((), false);
+    let mut stream = solver.start(&goal, st);
+    let mut n = 0;
+    while let Some(ans) = solver.next(&mut stream) {
+        n += 1;
+        let stored = ans.cstore_ref().iter().count() as i64;
+        let bal = ans.user_state.with - ans.user_state.take;
+        if bal != stored {
+            return Err((h.len(), format!("answer state: with={} take={} stored={}", ans.user_state.with, ans.user_state.take, stored), "answer-balance"));
+        }
+        if n > 4 { break; }
+    }
     Ok(())
 }
 
